@@ -88,7 +88,8 @@ def channel_specs(draw, kind=None, addr=None, physical=False, eom=None,
     if draw(st.integers(0, 4)) == 0:
         s["min_avg_amp"] = draw(st.sampled_from([0.5, 1.0]))
     amp_lim = draw(st.sampled_from([None, 5.0, TWO_PI * 2, TWO_PI * 2.5, 15.0]))
-    det_lim = draw(st.sampled_from([None, 20.0, TWO_PI * 20, 40.0]))
+    det_lim = draw(st.sampled_from([None, 20.0, TWO_PI * 20, 40.0, None, 20.0, TWO_PI * 20, 40.0, 0.0]))
+    # (0.0: a defined limit that allows resonant pulses only)
     if physical:
         amp_lim = amp_lim or TWO_PI * 2
         det_lim = det_lim or TWO_PI * 20
@@ -190,7 +191,7 @@ ID_POOL = ["q0", "q1", "q2", "q3", "q4", "q5", "a", "b", "atom7", "10", "x y"]
 
 @st.composite
 def register_specs(draw, n=(1, 6), dim=None, layout=None, mappable=False,
-                   ids=None, spacing=5.0):
+                   ids=None, spacing=5.0, int_ids=False):
     dim = dim or draw(st.sampled_from([2, 2, 3]))
     k = draw(st.integers(*n))
     pts = []
@@ -212,6 +213,9 @@ def register_specs(draw, n=(1, 6), dim=None, layout=None, mappable=False,
     else:
         idl = ids[:k]
         id_kind_pool = False
+    if int_ids and draw(st.integers(0, 2)) == 0:
+        # integer labels 0..k-1 in a permuted order (labels that look like positions)
+        idl = list(draw(st.permutations(list(range(k)))))
     use_layout = layout if layout is not None else (draw(st.integers(0, 3)) == 0)
     s: dict = dict(dim=dim, ids=idl, coords=pts)
     if use_layout or mappable:
